@@ -27,8 +27,8 @@ func init() {
 		Rule: "a run is non-trivial iff a nested view change (two or more views inside one call) or a recovery-request timeout (skip change view) occurred; distinct = distinct ordered delivery sequences"})
 	register(&PropSpec{ID: "C12", Run: simpleRun(TxScenario, func(s *Sim) { s.AddOracle(NewOracleC12(s)) }),
 		Rule: "a run is non-trivial iff (a) a proposal with missing transactions was accepted (and requested) inside an OnTransaction call, i.e. while completing an earlier proposal (counted separately as oracle_notes.obligation_opened_inside_OnTransaction), or (b) the last supplied transaction completed a block that failed verification and was answered by a change-view request, or (c) a requested transaction was supplied after a timeout or another consensus payload had had an effect on the node; distinct = distinct ordered delivery sequences"})
-	register(&PropSpec{ID: "C13", Run: simpleRun(WatchScenario, func(s *Sim) { s.AddOracle(NewOracleC13(s)) }),
-		Rule: "a run is non-trivial iff a validator with the watch-only flag set was the primary of its current height and view at least once; distinct = distinct ordered delivery sequences"})
+	register(&PropSpec{ID: "C13", Run: runC13,
+		Rule: "each evaluation runs one tape twice: with the special node (a validator with the watch-only flag, else an observer) running under the direct oracle (no Broadcast / Block.Sign / PreBlock.SetData ever), and with that node never started; the other nodes' canonical traces must be identical; non-trivial iff a validator with the watch-only flag set was the primary of its current height and view at least once; distinct = distinct ordered delivery sequences"})
 	register(&PropSpec{ID: "C08", Run: simpleRun(SyncScenario, func(s *Sim) { s.AddOracle(NewOracleC08(s)); s.AddOracle(NewOracleC01(s)) }),
 		Rule: "a run is non-trivial iff some payload reached a node before it had entered the height or view it belongs to (it was cached) in a run whose delivery order is tape-permuted; distinct = distinct ordered delivery sequences"})
 	register(&PropSpec{ID: "C09", Run: simpleRun(GSTScenario, func(s *Sim) { s.AddOracle(NewOracleC09(s)); s.AddOracle(NewOracleC01(s)) }),
